@@ -878,6 +878,10 @@ void strmaxprep2(char* p_dest, char const* p_src, size_t max_len) {
     }
     memmove(p_dest + src_len, p_dest, dest_len + 1);
     memmove(p_dest, p_src, src_len);
+
+    /* if dest was cut, the byte that moved into the last place is not its terminator */
+
+    p_dest[src_len + dest_len] = '\0';
 }
 
 void strins(char* Dest, char const* Src, int Pos) {
